@@ -101,7 +101,9 @@ def _check_read_back(prog, data, nptdms, version, model):
         if (cc.group_name, cc.name) != key:
             out.append("channel %r read back with names %r" % (key, (cc.group_name, cc.name)))
         exp_bytes, exp_dtype, exp_ints = [], None, None
-        kinds = {d[0] for d in descs if d[0] != "E"}
+        # writes that carry no value declare no type either (empty string list / empty datetime array / empty object array): the kind of
+        # a channel is the kind of its non-empty writes (after rejected calls were dropped a channel may start with such a write)
+        kinds = {d[0] for d in descs if d[0] != "E" and not (d[0] in "SD" and not d[1])}
         for d in descs:
             if d[0] == "K":
                 arr = d[2]
